@@ -941,12 +941,20 @@ class SReal(_SNum):
         raise TypeError("'float' object cannot be interpreted as an integer (symbolic real)")
 
 
+def _hash_concretized(self):
+    """hashing a symbolic integer (set member, dict key) case-splits it like using it as an index: the path continues with its smallest feasible value"""
+    return hash(ENG.concretize(self.z))
+
+
 def set_identity_hash(on):
     h = (lambda self: id(self)) if on else None
     _SNum.__hash__ = h
-    SInt.__hash__ = h
+    SInt.__hash__ = h if on else _hash_concretized
     SReal.__hash__ = h
     SBool.__hash__ = h
+
+
+SInt.__hash__ = _hash_concretized
 
 
 # --------------------------------------------------------------------------
